@@ -58,6 +58,17 @@ theorem reads_request {env : Env} (h : env.limit = none) (n : Nat) : Reads (requ
   intro rest a
   simp [request_none h]
 
+theorem requestAt_none {env : Env} (h : env.limit = none) (site : Site) (n : Nat) (s : St) :
+    requestAt env site n s = .ok () s := by
+  unfold requestAt
+  apply request_none
+  unfold Env.forSite
+  split <;> simp [h]
+
+theorem reads_requestAt {env : Env} (h : env.limit = none) (site : Site) (n : Nat) : Reads (requestAt env site n) [] () := by
+  intro rest a
+  simp [requestAt_none h]
+
 /-! ### byte strings, strings, time -/
 
 def normBytes : Option Bytes → Option Bytes
